@@ -190,6 +190,20 @@ ADD7 = {
  "C17": " (R1) gen reads nothing from the configuration before the last source is applied; (R3) SharedConfig::set matches on the key parameter itself.",
 }
 
+ADD8 = {
+ "C01": " (R3) lower_trait keeps every AST trait method; the C result union leaves out zero-field structs only (shared C09.R5); (R10) every generated writer method flushes (shared C12.R7).",
+ "C02": " (R6) the C++ keyword table covers the C++20 reserved words; special members call the generated member by its generated name; the result union filter (shared C09.R4/R5).",
+ "C03": " (R4) no template of the macro contains ManuallyDrop / mem::forget / Box::leak.",
+ "C04": " (R1) a JS runtime function forwarding a rest parameter of edge arrays spreads it; (R3) is_self = true is passed to lower_generics outright only when lowering a receiver.",
+ "C05": " (R3) no arm of lower_self_param reads the backend support profile; (R4) a definition that stores its fields builds its lifetime environment from them.",
+ "C06": " (R1) the rename pattern is read after add_attrs was called on the attribute set; (R3) the Kotlin JNA interface declares every generated method (selected on disable only).",
+ "C07": " (R2) lower_trait keeps every method; each member of the Kotlin result union is guarded by its own side.",
+ "C08": " (R6) every List(<constant status>) site of a top-level argument says NoForce; (R8) _fromFFI stores the raw scalar into a field only under the ownership flag.",
+ "C09": " (R5) an import named through fmt_type_name sits next to the disabled-type test (fixed finding 06fe4ce); C++ special members call {{m.method_name}} (fixed finding 2f7f8eb); compound-assignment members are unqualified; `exactly N` checks are inequalities; (R6) the annotated conversion is emitted under a test of the whole type only; (R4) keyword tables are the statics fmt_identifier names.",
+ "C10": " (R4/R5) DiplomatOption found by name in any module; union-iff-payload reads a tuple match.",
+ "C17": " (R2) a stored value may come from a binding of a pattern matched against the incoming value.",
+}
+
 def main():
     props = [json.loads(l) for l in open(os.path.join(V, "properties.jsonl"))]
     checks = []
@@ -205,7 +219,7 @@ def main():
                 "evidence_file": "/verif/evidence/%s.json" % pid,
                 "replay_cmd_template": "./check %s quick  # replay file {path} lists the violated rule instances" % pid,
                 "engine": "dipfacts+rules",
-                "level_claimed": {"category": "other", "text": c["text"] + ADD.get(pid, ("", ""))[0] + ADD3.get(pid, "") + ADD4.get(pid, "") + ADD5.get(pid, "") + ADD6.get(pid, "") + ADD7.get(pid, ""), "design_ref": "DESIGN.md section 4 " + pid},
+                "level_claimed": {"category": "other", "text": c["text"] + ADD.get(pid, ("", ""))[0] + ADD3.get(pid, "") + ADD4.get(pid, "") + ADD5.get(pid, "") + ADD6.get(pid, "") + ADD7.get(pid, "") + ADD8.get(pid, ""), "design_ref": "DESIGN.md section 4 " + pid},
                 "level_note": c["note"],
                 "technique": "static analysis: " + c["technique"] + ADD.get(pid, ("", ""))[1],
             })
